@@ -128,10 +128,16 @@ def check(model, rep, tier):
         core.norm(c.func) == 'self._ensure_node_in_anf' for c in pycfg.calls_at(g, i))]
     f, rs = raise_formula(wh.node)
     ri = [cfg_index(g, x) for x in rs]
+    # the list that is tested must still hold what naming the test produced:
+    # nothing between the naming and the rejection may have drained it
+    drains = [i for i in range(len(g.nodes)) if any(
+        core.norm(c.func) == 'self._consume_pending_statements'
+        for c in pycfg.calls_at(g, i))]
     if ens and rs and None not in ri:
       dom = g.dominators(skip_labels=('exc',))
       ok = all(ens[0] in dom[i] for i in ri) and formula.equivalent(
-          f, formula.atom('self._pending_statements'))[0]
+          f, formula.atom('self._pending_statements'))[0] and not any(
+              d in dom[i] for d in drains for i in ri)
   rep.check(ok, 'ANF-LAZY', '%s:AnfTransformer:lazy(While.test)' % ANF,
             'a while test is re-evaluated on every iteration: it must be '
             'rejected when naming it produced statements', line=wh.node.lineno
@@ -431,6 +437,49 @@ def check(model, rep, tier):
             'must be passed through to their children', {'table': sorted(passthrough)},
             line=en.node.lineno, witness='x[a + 1:b], f(*g(y)), with h() as z')
 
+  # the edge reported for a child reached through a non-expression wrapper
+  # (keyword, Starred, withitem, Slice) is the enclosing (parent, field): the
+  # recursive calls taken for those kinds hand both on
+  ep_ = en.params()
+  lost = []
+  n_prop = 0
+  if len(ep_) >= 3:
+    pp_, pf_, pn_ = ep_[0], ep_[1], ep_[2]
+    for c_ in ast.walk(en.node):
+      if not (isinstance(c_, ast.Call) and core.norm(c_.func) in (
+          'self._ensure_node_in_anf', 'self._ensure_fields_in_anf')):
+        continue
+      wrappers = set()
+      for pol, tst in formula.path_condition(en.node, c_):
+        if pol != 'T':
+          continue
+        for t in ast.walk(tst):
+          if isinstance(t, ast.Call) and core.dotted(t.func) == 'isinstance' and \
+              len(t.args) == 2 and core.norm(t.args[0]) == pn_:
+            ks = t.args[1].elts if isinstance(t.args[1], ast.Tuple) else [t.args[1]]
+            wrappers |= {(core.dotted(e) or '?').split('.')[-1] for e in ks}
+      if not wrappers or not wrappers <= {'keyword', 'Starred', 'withitem', 'Slice'}:
+        continue
+      n_prop += 1
+      callee = cls.methods.get(core.norm(c_.func)[5:])
+      from sa import inline as _inl
+      b_ = _inl._bind(callee.node, c_, True) if callee is not None else None
+      if b_ is None:
+        lost.append(core.norm(c_))
+        continue
+      vals = {k_: core.norm(v_) for k_, v_ in b_.items()}
+      cps = callee.params()
+      want_p = vals.get('parent')
+      want_f = vals.get('field') if 'field' in vals else vals.get('super_field')
+      if want_p != pp_ or want_f != pf_:
+        lost.append(core.norm(c_))
+  rep.check(n_prop >= 2 and not lost, 'ANF-CLASSES', '%s:wrapper-keeps-edge' % en.site,
+            'children of keyword / Starred / withitem / Slice nodes are operands of '
+            'the enclosing node: the (parent, field) edge handed to the configuration '
+            'must be the enclosing one, not (wrapper, its field)',
+            {'calls_without_edge': lost, 'wrapper_calls': n_prop}, line=en.node.lineno,
+            witness="a configuration naming (ast.Call, 'keywords', ...): f(key=g(x))")
+
   # ---------------------------------------------------------------- ANF-GENSYM
   gs = model.func(ANF, 'DummyGensym.new_name')
   g = pycfg.CFG(gs.node)
@@ -486,6 +535,37 @@ def check(model, rep, tier):
             '\'values\') and hoists positions the configuration never asked for',
             {'comparison': [core.norm(c) for c in cmpf]}, line=mt.node.lineno,
             witness="a pattern for 'values' also replacing Attribute.value")
+
+  # a pattern matches an edge exactly when all three slots match (ANY matches
+  # anything): the method's result as a boolean formula over the six tests
+  mpar = mt.params()
+
+  def slot_atom(e):
+    t = core.norm(e)
+    table = {}
+    for slot, arg in zip(('parent', 'field', 'child'), mpar):
+      table['self.%s is ANY' % slot] = slot[0].upper() + '_ANY'
+      table['ANY is self.%s' % slot] = slot[0].upper() + '_ANY'
+      if slot == 'field':
+        table['%s == self.field' % arg] = 'F_EQ'
+        table['self.field == %s' % arg] = 'F_EQ'
+      else:
+        table['isinstance(%s, self.%s)' % (arg, slot)] = slot[0].upper() + '_ISA'
+    return table.get(t)
+  A = formula.atom
+  want_m = (A('P_ANY') | A('P_ISA')) & (A('F_ANY') | A('F_EQ')) & (A('C_ANY') | A('C_ISA'))
+  try:
+    got_m = formula.result_formula(mt.node, formula.expanding(mt.node, slot_atom))
+    okm, cexm = formula.equivalent(got_m, want_m)
+    opaque_m = sorted(a for a in got_m.atoms if a.startswith('OPAQUE['))
+  except core.AnalysisError as e_:
+    okm, cexm, opaque_m = False, str(e_), []
+  rep.check(okm and not opaque_m, 'ANF-CLASSES', '%s:all-three-slots' % mt.site,
+            'a pattern matches an edge when the parent type, the field name and the '
+            'child type all match (ANY matches anything): the result must be that '
+            'conjunction', {'counterexample': cexm, 'unread_tests': opaque_m},
+            line=mt.node.lineno,
+            witness="(ast.If, 'test', ANY) must not match While.test")
 
   # ---------------------------------------------------------------- dependencies
   rep.depends('C17', ['TREE-COPY'],
